@@ -20,3 +20,4 @@ func TestC14(t *testing.T) { Check(t, "C14") }
 func TestC15(t *testing.T) { Check(t, "C15") }
 func TestC16(t *testing.T) { Check(t, "C16") }
 func TestC18(t *testing.T) { Check(t, "C18") }
+func TestC06(t *testing.T) { Check(t, "C06") }
